@@ -70,8 +70,9 @@ LRet ==
   /\ pend' = [pend EXCEPT ![Ev.g] = NoCall]
   /\ l' = l + 1 /\ UNCHANGED <<vars, tvars, cwvars>>
 
-LNext == LReset \/ LInv \/ LRet \/ \E g \in Gs : LLin(g) \/ LCommitCheck(g) \/ LCommitStore(g) \/ LTouch(g)
-LSpec == LInit /\ [][LNext]_lvars
+\* (blob media types, RegTrace's bmt, are not followed here: every blob of these scenarios is an octet-stream)
+LNext == (LReset \/ LInv \/ LRet \/ \E g \in Gs : LLin(g) \/ LCommitCheck(g) \/ LCommitStore(g) \/ LTouch(g)) /\ UNCHANGED bmt
+LSpec == LInit /\ [][LNext]_<<lvars, bmt>>
 
 \* high-water mark of consumed lines, kept in a TLC register
 ASSUME TLCSet(1, 0)
